@@ -257,7 +257,13 @@ def run(ctx):
     while len(cases) < n:
         cases.append(gen_recovery_case(rng))
     corr, failed, rec_errs = [], [], []
-    for c in cases:
+    # crop ties: a case is re-run with crop set to one of the eigenvalues it produced (exactly, in the eigenvalue's own
+    # precision): "does not exceed the crop threshold" includes equality, so that voxel must come back exactly zero
+    n_tie, max_tie = 0, ctx.n(8, 80)
+    qi = 0
+    while qi < len(cases):
+        c = cases[qi]
+        qi += 1
         key = json.dumps(public(c), sort_keys=True)
         try:
             ksp, true = make_ksp(sp, c)
@@ -271,15 +277,31 @@ def run(ctx):
             bad.append("ran %r updates instead of max_iter=%d" % (snap.get("iters"), c["max_iter"]))
         if not np.all(snap["x0"] == 1):
             bad.append("power iteration does not start from ones")
-        cls = "%s:%dD:%s" % (c["kind"], len(c["shape"]), "recovery" if c.get("recovery") else "invariants")
+        if c.get("tie_of") is not None:
+            info["voxels_with_eigenvalue_equal_to_crop"] = int(np.sum(np.asarray(eig) == np.asarray(c["crop"], dtype=np.asarray(eig).dtype)))
+            ctx.coverage["crop_tie_runs"] = ctx.coverage.get("crop_tie_runs", 0) + 1
+            ctx.coverage["crop_tie_runs_with_a_tie"] = ctx.coverage.get("crop_tie_runs_with_a_tie", 0) + int(info["voxels_with_eigenvalue_equal_to_crop"] > 0)
+        cls = "%s:%dD:%s" % (c["kind"], len(c["shape"]), "recovery" if c.get("recovery") else "crop-tie" if c.get("tie_of") is not None else "invariants")
         ctx.count(cls, key=key, nontrivial=info.get("unit_voxels", 0) > 0,
                   sample={"params": public(c), **info})
         if "recovery_err" in info:
             rec_errs.append(info["recovery_err"])
+        if not bad and not c.get("tie_of") and not c.get("recovery") and n_tie < max_tie and int(np.prod(c["shape"])) <= 400:
+            ev = np.unique(np.asarray(eig).ravel())
+            ev = ev[(ev > 0) & (ev < 1)]
+            if ev.size >= 3:
+                pick = ev[rng.randrange(ev.size // 4, max(ev.size // 4 + 1, (3 * ev.size) // 4))]
+                cases.append(dict(c, crop=float(pick), tie_of=float(c["crop"])))
+                n_tie += 1
         if bad:
             failed.append((c, bad, info))
             continue
         for d in corr_exprs(rng, c, maps, eig, AHA, snap, ctx.n(4, 8)):
+            if c.get("tie_of") is not None and d["what"] == "voxel":
+                # the whole-voxel model recomputes the eigenvalue in binary64; at an exact tie with crop its rounding decides
+                # the comparison differently from the implementation's own precision.  The `_output` correspondence (fed the
+                # implementation's eigenvalue) and the oracle judge the tie.
+                continue
             d["case"] = c
             corr.append(d)
     failing, corr_ok = [], True
